@@ -113,7 +113,7 @@ class _NumericOperationsImpl(OperationsBlock):
     def ceil(self, x):
         if isinstance(x.dtype, (dtypes.Floating, dtypes.NullableFloating)):
             return unary_op(x, opx.ceil, dtypes.float64)
-        return ndx.asarray(x, copy=False)
+        return ndx.asarray(x, copy=True)
 
     @validate_core
     def cos(self, x):
@@ -165,7 +165,7 @@ class _NumericOperationsImpl(OperationsBlock):
         x = ndx.asarray(x)
         if isinstance(x.dtype, (dtypes.Floating, dtypes.NullableFloating)):
             return unary_op(x, opx.floor, dtypes.float64)
-        return x
+        return x.copy()
 
     @validate_core
     def floor_divide(self, x, y):
@@ -286,7 +286,7 @@ class _NumericOperationsImpl(OperationsBlock):
         if isinstance(x.dtype, (dtypes.Floating, dtypes.NullableFloating)):
             return unary_op(x, opx.round)
         else:
-            return x
+            return x.copy()
 
     @validate_core
     def sign(self, x):
@@ -339,7 +339,7 @@ class _NumericOperationsImpl(OperationsBlock):
         x = ndx.asarray(x)
         if isinstance(x.dtype, (dtypes.Floating, dtypes.NullableFloating)):
             return ndx.where(x < 0, self.ceil(x), self.floor(x))
-        return x
+        return x.copy()
 
     # linalg.py
 
